@@ -8,6 +8,7 @@
 import PopsModel.Lemmas.NetWalk
 import PopsModel.Lemmas.NetLoad
 import PopsModel.Lemmas.NetGeom
+import PopsModel.Lemmas.KernElig
 namespace Pops
 open Pops.Net
 
@@ -555,5 +556,45 @@ example :
     errorOf (load exGrid "1,2,51.5;7.5;53.5;7.5\n".toList) = some .runtime_error ∧
     errorOf (load exGrid "1,2,51.5;7.5;53.5;7.5\n".toList true) = none := by
   decide +kernel
+
+/-! ## Wiring of the network kernel by the factory -/
+
+/-- **Movement mode wiring** (anthropogenic_kernel.hpp:60-69). When the anthropogenic kernel name
+    maps to the network kernel, `create_anthro_kernel` builds a network kernel whose flags and
+    distance bounds are those the configuration asks for (`ConfigWiring`): teleporting iff
+    `network_movement` is "teleport"; otherwise walking with a cost drawn between
+    `network_min_distance` and `network_max_distance`, snapping to the nearer node iff it is "jump".
+    Hence a call of the built kernel is `teleport` (one step, adjacent node: `C15_teleport_adjacent`)
+    in the first case and `walk` with that snapping flag (`C15_cost`, `C15_jump`) in the second. -/
+theorem C15_network_movement_wiring (c : KernelConfig)
+    (ht : kernelTypeFromString c.anthroKernelType = .ok .network) :
+    ∃ d w, createAnthroKernel c = .ok d ∧ d.cls = .network ∧ d.wiring? = some w ∧ ConfigWiring c w ∧
+      ∀ (n : Net) (cell : Cell) (dist : Rat),
+        n.kernelCall w.teleport w.jump cell dist =
+          if c.networkMovement = "teleport" then n.teleport cell 1
+          else n.walk cell dist (decide (c.networkMovement = "jump")) := by
+  have hb := createAnthro_network c ht
+  by_cases hm : c.networkMovement = "teleport"
+  · refine ⟨.networkTeleport, _, by simpa [hm] using hb, rfl, rfl, ?_, ?_⟩
+    · simp [ConfigWiring, hm]
+    · intro n cell dist; simp [hm, Net.kernelCall]
+  · refine ⟨.networkWalk c.networkMinDistance c.networkMaxDistance (decide (c.networkMovement = "jump")), _,
+      by simpa [hm] using hb, rfl, rfl, ?_, ?_⟩
+    · simp [ConfigWiring, hm]
+    · intro n cell dist; simp [hm, Net.kernelCall]
+
+/-- The three movement modes on a configuration that names the network kernel. -/
+example (c : KernelConfig) (ht : kernelTypeFromString c.anthroKernelType = .ok .network)
+    (hm : c.networkMovement = "jump") :
+    createAnthroKernel c = .ok (.networkWalk c.networkMinDistance c.networkMaxDistance true) := by
+  rw [createAnthro_network c ht]; simp [hm]
+
+example : ConfigWiring { (default : KernelConfig) with networkMovement := "teleport" }
+      { teleport := true, jump := false, min := 0, max := 1 } ∧
+    ¬ ConfigWiring { (default : KernelConfig) with networkMovement := "walk", networkMinDistance := 2, networkMaxDistance := 5 }
+      { teleport := true, jump := false, min := 0, max := 1 } ∧
+    ConfigWiring { (default : KernelConfig) with networkMovement := "walk", networkMinDistance := 2, networkMaxDistance := 5 }
+      { teleport := false, jump := false, min := 2, max := 5 } := by
+  refine ⟨?_, ?_, ?_⟩ <;> simp [ConfigWiring]
 
 end Pops
